@@ -174,6 +174,8 @@ pub fn explore(threads: &[Vec<Step>], tolerate_direct: bool) -> Explored {
 #[derive(Debug, Clone, Hash)]
 pub struct Case {
     pub tree: E,
+    /// the -threads option given to compile
+    pub threads: Option<u32>,
     /// thread -> file indices (into the fixed file set)
     pub assignment: Vec<Vec<u8>>,
 }
@@ -184,7 +186,7 @@ fn file_set(now: u64) -> Vec<FileRec> {
 }
 
 pub fn judge(c: &Case) -> (Verdict, u64, u64) {
-    let comp = match policy::compile_tree(&c.tree, None, "/") {
+    let comp = match policy::compile_tree(&c.tree, c.threads, "/") {
         CompileOutcome::Ok(c) => c,
         CompileOutcome::Err(_) => return (Verdict::Skip("does not compile (C12)"), 0, 0),
         CompileOutcome::Panic(p) => return (Verdict::Fail(format!("compile panicked: {p}")), 0, 0),
@@ -198,6 +200,12 @@ pub fn judge(c: &Case) -> (Verdict, u64, u64) {
         return (Verdict::Fail(format!("{:?}: program fails at run time: {e}", c.tree)), 0, 0);
     }
     let framed = comp.io_map.is_some();
+    // how many scanner threads does the emitted scan call allow?
+    match run.world.scan.as_ref().map(|s| s.threads.clone()) {
+        Some(crate::interp::V::Int(1)) => return (Verdict::Skip("the scan call asks for exactly one thread"), 0, 0),
+        Some(crate::interp::V::Int(0)) => return (Verdict::Skip("thread count 0: meaning defined by the runtime, not explored"), 0, 0),
+        _ => {}
+    }
     let mut units = 0usize;
     let mut threads: Vec<Vec<Step>> = vec![];
     for fs in &c.assignment {
@@ -234,12 +242,12 @@ pub fn judge(c: &Case) -> (Verdict, u64, u64) {
 }
 
 fn case_json(c: &Case) -> Value {
-    json!({"kind": "schedule-space", "tree": term::encode_expr(&c.tree), "text": crate::render::canonical(&c.tree), "threads": c.assignment})
+    json!({"kind": "schedule-space", "threads_option": c.threads, "tree": term::encode_expr(&c.tree), "text": crate::render::canonical(&c.tree), "threads": c.assignment})
 }
 pub fn replay(case: &Value) -> Result<Verdict, String> {
     let tree = term::decode_expr(case["tree"].as_str().ok_or("no tree")?)?;
     let assignment = case["threads"].as_array().ok_or("threads")?.iter().map(|t| t.as_array().map(|a| a.iter().map(|v| v.as_u64().unwrap_or(0) as u8).collect()).unwrap_or_default()).collect();
-    Ok(judge(&Case { tree, assignment }).0)
+    Ok(judge(&Case { tree, threads: case["threads_option"].as_u64().map(|t| t as u32), assignment }).0)
 }
 
 pub fn run(ctx: &Ctx) -> Report {
@@ -258,7 +266,8 @@ pub fn run(ctx: &Ctx) -> Report {
             1 => Just(Act::PrintFid),
         ];
         let leaf = prop_oneof![5 => action.prop_map(E::A), 1 => Just(E::T(Tst::True)), 1 => Just(E::T(Tst::Name("a".into()))), 1 => Just(E::T(Tst::IName("A".into())))];
-        let strat = (gen::expr_over(leaf.boxed(), 3, 7, false), proptest::collection::vec(proptest::collection::vec(0u8..4, 1..3), 2..4)).prop_map(|(tree, assignment)| Case { tree, assignment });
+        let threads = prop_oneof![3 => Just(None), 1 => Just(Some(0u32)), 1 => Just(Some(1u32)), 1 => Just(Some(2u32)), 1 => gen::count_u32().prop_map(Some)];
+        let strat = (gen::expr_over(leaf.boxed(), 3, 7, false), threads, proptest::collection::vec(proptest::collection::vec(0u8..4, 1..3), 2..4)).prop_map(|(tree, threads, assignment)| Case { tree, threads, assignment });
         run_prop(
             &mut st,
             ctx.seed,
@@ -280,7 +289,7 @@ pub fn run(ctx: &Ctx) -> Report {
     total.extra.insert("transitions".into(), json!(transitions.load(std::sync::atomic::Ordering::Relaxed)));
     Report {
         stats: total,
-        rule: "programs with 1..3 printers (plain: stdout printers with different terminators and runtime-direct printers; framed: any mix), 2..3 threads each running the policy on 1..2 files. The emitted printer procedures are executed by the runtime model into atomic steps Lock m / Write port / Unlock m (a frame is the run of writes up to separator+tag; a runtime printer writes payload then terminator under its mutex); the harness owns the schedule and explores ALL interleavings of every generated configuration by breadth-first search over (program counters, open record per port) with blocking mutex semantics. Oracle: no reachable state in which a thread writes to a port while another thread's record on that port is incomplete (so the stream always splits into whole frames / whole terminated records with the emitted multiset), and no reachable state with unfinished threads all blocked (deadlock). Non-trivial: >=2 threads write and some thread was blocked on a held mutex or >=2 records were emitted. Distinct: by (tree, thread->files assignment).".into(),
+        rule: "programs with 1..3 printers (plain: stdout printers with different terminators and runtime-direct printers; framed: any mix), 2..3 threads each running the policy on 1..2 files, compiled without and with a -threads option (0, 1, 2, random); configurations whose emitted scan call asks for exactly one thread are not explored. The emitted printer procedures are executed by the runtime model into atomic steps Lock m / Write port / Unlock m (a frame is the run of writes up to separator+tag; a runtime printer writes payload then terminator under its mutex); the harness owns the schedule and explores ALL interleavings of every generated configuration by breadth-first search over (program counters, open record per port) with blocking mutex semantics. Oracle: no reachable state in which a thread writes to a port while another thread's record on that port is incomplete (so the stream always splits into whole frames / whole terminated records with the emitted multiset), and no reachable state with unfinished threads all blocked (deadlock). Non-trivial: >=2 threads write and some thread was blocked on a held mutex or >=2 records were emitted. Distinct: by (tree, thread->files assignment).".into(),
         assumptions: {
             let mut a = crate::checks::c02::runtime_assumptions();
             a.push("not covered: fairness/liveness of the real Guile scheduler, and write atomicity inside the real runtime (a single display / runtime-direct print is one atomic write)".into());
